@@ -382,4 +382,35 @@ example : atomsOrder toyHash exM = some [(1, 1), (3, 2), (2, 3)] := by decide +k
 example : atomsOrder toyHash exM' = some [(11, 1), (13, 2), (12, 3)] := by decide +kernel
 example : Discrete [(1, 1), (3, 2), (2, 3)] := by unfold Discrete; decide
 
+/-- the hypothesis of `smiles_invariant_of_discrete_partial` is satisfiable: a (toy) writer that prints an
+    order-independent digest of the rank-keyed molecule -/
+def keyDigest (a : MolView) : Nat := (keys a.atoms).foldr (· + ·) 0
+
+def toyWrite (m : MolView) : String :=
+  match atomsOrder toyHash m with
+  | some r => toString (keyDigest (rekey (rankFn r) m))
+  | none => ""
+
+example : FactorsThroughRanksOnDiscrete toyHash toyWrite := by
+  refine ⟨fun a => toString (keyDigest a), ?_, ?_⟩
+  · intro a b hab
+    have hp : (keys b.atoms).Perm (keys a.atoms) := by
+      have := hab.1
+      unfold DictEq at this
+      have h2 := this.map (·.1)
+      simpa [keys, mapKeys] using h2
+    have hs : ∀ {l l' : List Nat}, l.Perm l' → l.foldr (· + ·) 0 = l'.foldr (· + ·) 0 := by
+      intro l l' hperm
+      induction hperm with
+      | nil => rfl
+      | cons x _ ih => simp [ih]
+      | swap x y l => simp [Nat.add_left_comm]
+      | trans _ _ ih₁ ih₂ => exact ih₁.trans ih₂
+    show toString (keyDigest a) = toString (keyDigest b)
+    unfold keyDigest
+    rw [hs hp]
+  · intro m r hr _
+    simp [toyWrite, hr]
+example : toyWrite exM = "6" ∧ toyWrite exM' = "6" := by decide +kernel
+
 end ChythonModel.Props.C01
